@@ -40,15 +40,15 @@ theorem c_input_loop_wf (fuel : Nat) (cc : CC) (res : Bool) (tot cmdlen : Int) (
   ⟨h.wf, h.ub, h.oof⟩
 
 /-- an over-long chunk (Props/C01.lean `overrun_copies_nothing`, for the generated function): the generated SCPI_Input is the
-hand model's `input` (buffer invalidated, -363 pushed, nothing copied), returns FALSE, and no CHECK fails -/
+hand model's `input` (buffer invalidated, -363 pushed, nothing copied), returns FALSE, and no CHECK fails; `hlen`: the chunk length is a C `int` -/
 theorem c_overrun_copies_nothing (cc : CC) (hi : Inv cc) (data : Bytes) (hd : data ≠ [])
-    (hov : data.length + 1 > (toM cc).bufLen - (toM cc).position) :
+    (hlen : data.length ≤ 2147483647) (hov : data.length + 1 > (toM cc).bufLen - (toM cc).position) :
     Ctx.input (toM cc) data = emit (toM (SCPI_Input detectM parseM pushM cc (some data) data.length).1)
         (.input (SCPI_Input detectM parseM pushM cc (some data) data.length).2) ∧
     (SCPI_Input detectM parseM pushM cc (some data) data.length).1.ub = false ∧
     (SCPI_Input detectM parseM pushM cc (some data) data.length).1.outOfFuel = false ∧
     (SCPI_Input detectM parseM pushM cc (some data) data.length).2 = false :=
-  input_overrun_refines cc hi data hd hov
+  input_overrun_refines cc hi data hd hlen hov
 
 /-- every well-formed hand-model context with a buffer of at most INT_MAX bytes is such a state -/
 theorem c_inv_of_wf (c : Ctx) (t ht : Int) (h : WF c) (hl : c.bufLen ≤ 2147483647) : Inv (toC c t ht) ∧ toM (toC c t ht) = c :=
@@ -79,13 +79,14 @@ example :
     (toM r.1).position = 0 ∧ r.2 = false ∧ (toM r.1).events = [Ev.error (-363) none] ∧ r.1.ub = false := by
   decide +kernel
 
--- a flush: "A" pending without terminator, then a zero-length call executes it and empties the buffer
+-- a flush: after "A\nAA" the message is executed and "AA" is moved to the front, where the byte behind it (buf[2]) is a stale
+-- 'A'; the zero-length call has to store the NUL there, executes "AA" (no such command: -113) and empties the buffer
 example :
-    let c1 := Ctx.input ex0 [65]
+    let c1 := Ctx.input ex0 [65, 10, 65, 65]
     let r := SCPI_Input detectM parseM pushM (toC c1 0 26) (some []) 0
+    c1.position = 2 ∧ c1.buf.take 3 = [65, 65, 65] ∧
     obsM (Ctx.input c1 []) = obsM (emit (toM r.1) (.input r.2)) ∧
-    (toM r.1).position = 0 ∧ r.2 = true ∧ r.1.ub = false ∧
-    (toM r.1).events = [Ev.input true, Ev.parseMsg [65], Ev.handler 1 [65], Ev.tag 1] := by
+    (toM r.1).position = 0 ∧ (toM r.1).buf.take 3 = [65, 65, 0] ∧ r.2 = false ∧ r.1.ub = false := by
   decide +kernel
 
 end ScpiVerif.Props.C01Gen
